@@ -30,11 +30,22 @@ def gen(ctx, binp, mode, n, nshards, shards):
         ev = os.path.join(r.dir, "events.ndjson")
         s = ctx.run_json(binp, ["replay", os.path.join(r.dir, "vectors.ndjson"), ev], timeout=3000)
         vp.absorb(ctx, s)
-        tv(ctx, ev)
+        tv(ctx, ev, aborted=bool((s.get("notes") or {}).get("aborted")))
     vp.parallel([lambda sh=sh: one(sh) for sh in shards])
 
 
-def tv(ctx, ev):
+def drop_torn_tail(ev):
+    """A harness that was aborted by its hang / slow-call watchdog (a verdict, reported in its summary) exits at
+    once and may leave a half-written last event line: cut it off so that the complete events are still judged."""
+    data = open(ev, "rb").read()
+    if data and not data.endswith(b"\n"):
+        data = data[:data.rfind(b"\n") + 1]
+        open(ev, "wb").write(data)
+
+
+def tv(ctx, ev, aborted=False):
+    if aborted:
+        drop_torn_tail(ev)
     evs = vp.read_ndjson(ev)
     if not evs:
         return
@@ -53,7 +64,7 @@ def rec(ctx, binp, n, nproc):
         s = ctx.run_json(binp, ["record", ev, str(n)], timeout=3000,
                          env={"VERIF_SEED": str(ctx.seed * 1000 + k), "VERIF_SWEEP": "%d/%d" % (stride, phase)})
         vp.absorb(ctx, s, traces=False)
-        tv(ctx, ev)
+        tv(ctx, ev, aborted=bool((s.get("notes") or {}).get("aborted")))
     vp.parallel([lambda k=k: one(k) for k in range(nproc)])
 
 
